@@ -94,6 +94,56 @@ func check(s Spec) h.Result {
 			return h.Result{Fail: fmt.Sprintf("signature bytes of run %d (GOMAXPROCS %d, jittered reads) differ from run 0: %d vs %d bytes, first difference at %d", i, procs[i%len(procs)], sw.buf.Len(), len(s0), firstDiff(s0, sw.buf.Bytes())), Classes: cl}
 		}
 	}
+	// two diffs running at the same time in this process (this pair and the reversed pair, each with its own
+	// DiffContext, pools and writers) must not influence each other: each must still write its solo bytes
+	{
+		runtime.GOMAXPROCS(procs[len(procs)-1])
+		sc2, th2, err := h.Sign(nd)
+		if err != nil {
+			return h.Failf("sign new: %v", err)
+		}
+		solo := func(rev bool, j *h.Jitter) ([]byte, []byte, error) {
+			var dctx *pwr.DiffContext
+			if !rev {
+				dctx = &pwr.DiffContext{Compression: s.Comp.Settings(), Consumer: h.Quiet(), SourceContainer: sc, Pool: &h.JitterPool{Pool: fspool.New(sc, nd), J: j}, TargetContainer: tc, TargetSignature: th}
+			} else {
+				dctx = &pwr.DiffContext{Compression: s.Comp.Settings(), Consumer: h.Quiet(), SourceContainer: tc, Pool: &h.JitterPool{Pool: fspool.New(tc, od), J: j}, TargetContainer: sc2, TargetSignature: th2}
+			}
+			pw, sw := &jitterWriter{j: j}, &jitterWriter{j: j}
+			err := dctx.WritePatch(context.Background(), pw, sw)
+			return pw.buf.Bytes(), sw.buf.Bytes(), err
+		}
+		rp0, rs0, err := solo(true, h.NewJitter(nil, 0))
+		if err != nil {
+			return h.Result{Fail: fmt.Sprintf("WritePatch of the reversed pair: %v", err), Classes: cl}
+		}
+		type out struct {
+			p, s []byte
+			err  error
+		}
+		for round := 0; round < 2; round++ {
+			ch := make([]chan out, 2)
+			for k := 0; k < 2; k++ {
+				ch[k] = make(chan out, 1)
+				go func(k int) {
+					p, sg, err := solo(k == 1, h.NewJitter(s.Jitter, round*13+k*5))
+					ch[k] <- out{p, sg, err}
+				}(k)
+			}
+			a, b := <-ch[0], <-ch[1]
+			if a.err != nil || b.err != nil {
+				return h.Result{Fail: fmt.Sprintf("concurrent WritePatch calls failed: %v / %v", a.err, b.err), Classes: cl}
+			}
+			if !bytes.Equal(a.p, p0) || !bytes.Equal(a.s, s0) {
+				return h.Result{Fail: fmt.Sprintf("a diff running while another diff runs in the same process wrote different bytes than alone (patch equal=%v, signature equal=%v)", bytes.Equal(a.p, p0), bytes.Equal(a.s, s0)), Classes: cl}
+			}
+			if !bytes.Equal(b.p, rp0) || !bytes.Equal(b.s, rs0) {
+				return h.Result{Fail: fmt.Sprintf("the reversed diff running while another diff runs in the same process wrote different bytes than alone (patch equal=%v, signature equal=%v)", bytes.Equal(b.p, rp0), bytes.Equal(b.s, rs0)), Classes: cl}
+			}
+		}
+		cl = append(cl, "concurrent:two-diffs-in-one-process")
+	}
+
 	// the optimizer, twice (thrice) with identical parameters
 	op := h.OptParams{Partitions: s.Parts, Comp: s.Comp, ForceMapAll: s.Force}
 	var o0 []byte
